@@ -251,6 +251,24 @@ def rule_cleanup(program, ctx):
     else:
         ctx.bad(finding_func(P, rid, sc, "client_id is not bound exactly once from ClientID(...)", text="def start_client(...) :: client_id"))
     ci = program.cls("nostr_relay.util:ClientID")
+    # the string __hash__ is computed from is set once: the object is a key of storage.clients (WeakKeyDictionary) from the first REQ on
+    hashed = {a.attr for h in [ci.methods.get("__hash__")] if h is not None for a in ast.walk(h) if isinstance(a, ast.Attribute) and isinstance(a.value, ast.Name) and a.value.id == "self"}
+    for mn, mfn in ci.methods.items():
+        if mn == "__init__":
+            continue
+        for x in ast.walk(mfn):
+            tg = x.targets if isinstance(x, ast.Assign) else [x.target] if isinstance(x, (ast.AugAssign, ast.AnnAssign)) else []
+            for t in tg:
+                if isinstance(t, ast.Attribute) and isinstance(t.value, ast.Name) and t.value.id == "self" and t.attr in hashed:
+                    ctx.bad(finding_at(P, rid, x, f"ClientID.{mn} re-assigns `self.{t.attr}`, which __hash__ is computed from: once the connection has a subscription the registry entry can no "
+                                       "longer be found - CLOSE does nothing, the entry and its subscriptions outlive the connection"))
+    for m_ in program.modules.values():
+        if m_.name.startswith("nostr_relay") and m_.name != "nostr_relay.util":
+            for x in ast.walk(m_.tree):
+                tg = x.targets if isinstance(x, ast.Assign) else []
+                for t in tg:
+                    if isinstance(t, ast.Attribute) and t.attr in hashed and "client" in ast.unparse(t.value).lower():
+                        ctx.bad(finding_at(P, rid, x, f"`{ast.unparse(t)}` is assigned outside ClientID: the registry key's hash changes under the WeakKeyDictionary"))
     if "__eq__" in ci.methods:
         f = ci.methods["__eq__"]
         ident = any(isinstance(c, ast.Compare) and isinstance(c.ops[0], ast.Is) for c in ast.walk(f))
@@ -500,6 +518,61 @@ def rule_limiter_cleanup(program, ctx, prop=P, rid="C19.limiter"):
     ctx.ok(rid, fn, f"cleanup: {n} keyed lookups in local tables checked")
 
 
+def rule_regex(program, ctx, prop=P, rid="C19.regex"):
+    import re as _re
+    try:
+        from re import _parser as _sre
+    except ImportError:  # pragma: no cover
+        import sre_parse as _sre
+
+    ctx.rule(
+        rid,
+        "no client string is matched against a pattern with nested unbounded repetition: every regular expression literal in the modules that see client input "
+        "(auth, web, validators, storage.base, rate_limiter, util) has star height 1 - `(?:[a-z0-9-]+\\.?)+` backtracks exponentially on a non-matching input of a few dozen "
+        "characters and holds the event loop (and the GIL) for minutes: the relay answers nobody",
+        floor=0,
+    )
+
+    def height(items, depth=0, found=None):
+        found = found if found is not None else []
+        for op, av in items:
+            nm = str(op)
+            if nm in ("MAX_REPEAT", "MIN_REPEAT"):
+                lo, hi, sub = av
+                unbounded = hi is _sre.MAXREPEAT or (isinstance(hi, int) and hi > 64)
+                if unbounded and depth >= 1:
+                    found.append(True)
+                height(sub, depth + (1 if unbounded else 0), found)
+            elif nm == "SUBPATTERN":
+                height(av[-1], depth, found)
+            elif nm == "BRANCH":
+                for b in av[1]:
+                    height(b, depth, found)
+            elif nm in ("ASSERT", "ASSERT_NOT"):
+                height(av[1], depth, found)
+        return found
+
+    n = 0
+    for mn in ("nostr_relay.auth", "nostr_relay.web", "nostr_relay.validators", "nostr_relay.storage.base", "nostr_relay.rate_limiter", "nostr_relay.util"):
+        m = program.modules.get(mn)
+        if m is None:
+            continue
+        for c in ast.walk(m.tree):
+            if isinstance(c, ast.Call) and call_name(c).split(".")[0] in ("re", "regex") and call_name(c).split(".")[-1] in ("compile", "match", "fullmatch", "search", "sub", "findall", "finditer", "split") \
+                    and c.args and isinstance(c.args[0], ast.Constant) and isinstance(c.args[0].value, str):
+                n += 1
+                try:
+                    tree = _sre.parse(c.args[0].value)
+                except Exception:
+                    continue
+                if height(list(tree)):
+                    ctx.bad(finding_at(prop, rid, c, f"the pattern `{c.args[0].value[:50]}` nests an unbounded repetition inside another: matching a crafted client string takes exponential time "
+                                       "on the event loop"))
+                else:
+                    ctx.ok(rid, c, f"{mn.split('.')[-1]}: pattern `{c.args[0].value[:30]}` has star height 1")
+    ctx.ok(rid, program.module("nostr_relay.web").tree, f"{n} regular expression literals checked")
+
+
 def rule_arith(program, ctx, prop=P, rid="C19.arith"):
     ctx.rule(
         rid,
@@ -595,6 +668,7 @@ def run(program, ctx):
     rule_token(program, ctx)
     rule_limiter_cleanup(program, ctx)
     rule_arith(program, ctx)
+    rule_regex(program, ctx)
     from . import c02
 
     c02.rule_rows(program, ctx, prop=P, rid="C19.rows")
